@@ -104,6 +104,17 @@ CLAIMED = {
         "property-based testing (Hypothesis, planted coalitions) against the Droop-proportionality axiom over all subsets",
         "3/C07",
     ),
+    "C05": (
+        "For each of Rating/Approval/Limited/Cumulative/BlocPlurality/GeneralRating a score profile valid by "
+        "construction is generated together with ONE single-violation variant at a generated ballot index "
+        "(scores removed / all zero, one negative score, one score L+1e-6 or gross, total k+1e-6 or gross) and the "
+        "boundary-exact variants (== L, == k).  Oracle: invalid -> TypeError out of the constructor with no recorded "
+        "round; valid and boundary -> round-0 totals equal sum(weight*score) exactly, m winners none below a loser, "
+        "ValueError iff an unbroken boundary tie.",
+        "Scores are exact Fractions so the 1e-6 margins are real; the tally oracle is harness code.",
+        "property-based testing (Hypothesis) with single-fault variants and an exact tally oracle",
+        "3/C05",
+    ),
 }
 
 PENDING_REASON = "check not built yet in this session; the design (DESIGN.md section 3) claims it and it will be registered once it is quiet on the unchanged tree and catches its mutants"
